@@ -96,7 +96,10 @@ def gen_medium_net(rng, growth=False):
     for i, m in enumerate(ext):
         if rng.random() < 0.06:
             continue
-        prefix = rng.choices(["EX_", "R_up", "DM_", "SK_", "sink_", "EX_biosynthesis"], [70, 10, 6, 5, 4, 5])[0]
+        # (incl. identifiers that contain an exclusion fragment in ANOTHER letter case: asparagine "asn_" ~ "SN_",
+        #  "cdm_" ~ "DM_", "Sink" ~ "sink" -- the documented fragments are case-sensitive)
+        prefix = rng.choices(["EX_", "R_up", "DM_", "SK_", "sink_", "EX_biosynthesis", "EX_asn_", "EX_cdm_", "EX_Sink"],
+                             [62, 10, 6, 5, 4, 5, 3, 3, 2])[0]
         rid = "%s%d" % (prefix, i)
         u = rng.random()
         imp = None if (not growth and rng.random() < 0.1) else rng.choice([F(0), F(1), F(5), F(10), F(1000)])
